@@ -125,7 +125,7 @@ fn blacklist_check(request: &Request, state: Arc<AppState>) -> Option<Response> 
     // Check the address the request claims to originate from as well as every address it was
     //   forwarded through, the last of which is the actual peer: a blacklisted client must not be
     //   able to get around the blacklist by sending an `X-Forwarded-For` header of its own.
-    let blacklist = &state.config.blacklist.list;
+    let blacklist = &state.config.blacklist;
 
     if blacklist.contains(&request.address.origin_addr)
         || request
